@@ -136,7 +136,7 @@ def oracle_c12(ctx, focus):
         n += 1
         shapes.add(a.rsplit(";", 1)[-1].split("|", 1)[0] + str(len(a.split(";"))))
         for (what, obs, exp) in check_ds_answer(r, a):
-            if len(failures) < 50:
+            if len(failures) < 5000:
                 failures.append(fail(r.split("\t")[1], "%s: %s" % (what, obs), exp, [r], clause=what))
     ctx.samples["c12"] = [{"ops": reqs[len(reqs) // 3].split("\t")[1], "answer": impl[len(reqs) // 3][:200]}]
     return {"evaluations": n, "distinct_nontrivial": len(set(impl)), "failures": failures,
@@ -258,7 +258,7 @@ def oracle_c01(ctx, focus, langs=None):
         b = [c for i, c in enumerate(cases) if i % 3 != 0]
         f1, n1 = _check_val_and_text(ctx, "c01t" + lang, lang, a, with_text=True, expect_ordinal=0)
         f2, n2 = _check_val_and_text(ctx, "c01v" + lang, lang, b, with_text=False)
-        failures += f1[:30] + f2[:30]
+        failures += f1 + f2
         n += n1 + n2
         distinct |= {(lang, c[1]) for c in cases}
         if cases:
@@ -299,7 +299,7 @@ def oracle_c04(ctx, focus, langs=None):
         f1, n1 = _check_val_and_text(ctx, "c04t" + lang, lang, a, with_text=True, expect_ordinal=1)
         f2, n2 = _check_val_and_text(ctx, "c04v" + lang, lang, b, with_text=False)
         # value = n: checked on the occurrence of the text-level cases
-        failures += f1[:30] + f2[:30]
+        failures += f1 + f2
         n += n1 + n2
         distinct |= {(lang, c[1]) for c in cases}
         if cases:
@@ -368,7 +368,7 @@ def oracle_c05(ctx, focus, langs=None):
         n += len(sepreqs)
         if cases:
             ctx.samples.setdefault("c05", []).append({"lang": lang, "phrase": cases[len(cases) // 2][1], "expected": unesc(cases[len(cases) // 2][2])})
-    return {"evaluations": n, "distinct_nontrivial": len(distinct), "failures": failures[:60],
+    return {"evaluations": n, "distinct_nontrivial": len(distinct), "failures": failures[:5000],
             "rule": "integer x fraction-digit-string grid + random (n<10^9, 1-6 digits) at thresholds 0/10/inf; separator-alone cases"}
 
 
@@ -388,7 +388,7 @@ def oracle_c16(ctx, focus, langs=None):
         # `zeros 1 0` is "zero zero" -> not in the property; replace by the lone zero
         cases = [c for c in cases if not c[0].endswith("\t1\t0\t0")]
         f1, n1 = _check_val_and_text(ctx, "c16" + lang, lang, cases, with_text=True)
-        failures += f1[:30]
+        failures += f1
         n += n1
         # lone zero
         z = _spec_cases(ctx, "c16z" + lang, ["gen\tzeros\t%s\t0\t0\t0" % lang])
@@ -407,7 +407,7 @@ def oracle_c16(ctx, focus, langs=None):
         distinct |= {(lang, c[1]) for c in cases + za}
         if cases:
             ctx.samples.setdefault("c16", []).append({"lang": lang, "phrase": cases[len(cases) // 2][1], "expected": unesc(cases[len(cases) // 2][2])})
-    return {"evaluations": n, "distinct_nontrivial": len(distinct), "failures": failures[:60],
+    return {"evaluations": n, "distinct_nontrivial": len(distinct), "failures": failures[:5000],
             "rule": "k in [0,6] zeros x cardinals n<10^9 (C01 input sets), lone zero, zero after a number"}
 
 
@@ -474,7 +474,7 @@ def oracle_c08(ctx, focus, langs=None):
         distinct |= {(lang, c[1]) for c in dc}
         if cases:
             ctx.samples.setdefault("c08", []).append({"lang": lang, "phrase": cases[2143][1], "allowed": cases[2143][2]})
-    return {"evaluations": n, "distinct_nontrivial": len(distinct), "failures": failures[:80],
+    return {"evaluations": n, "distinct_nontrivial": len(distinct), "failures": failures[:5000],
             "rule": "all pairs (a,b) in [0,99]^2 x {space, conjunction}; all digit strings of length <= 4, sampled longer ones"}
 
 
@@ -658,7 +658,7 @@ def oracle_c02(ctx, focus):
         if msg:
             failures.append(fail(r.split("\t", 3)[3], msg, "each token kept or handed once, in order, to the occurrence covering it", [r], what="stream-partition"))
     ctx.samples["c02"] = [{"lang": meta[len(meta) // 2][0], "text": meta[len(meta) // 2][1]}]
-    return {"evaluations": n, "distinct_nontrivial": len(distinct) + len(set(simpl)), "failures": failures[:60],
+    return {"evaluations": n, "distinct_nontrivial": len(distinct) + len(set(simpl)), "failures": failures[:5000],
             "rule": "texts with punctuation/hyphens/apostrophes/multi-byte chars/several numbers: concat(tokens)=s, text=splice(tokens, occurrences); stream traces of the recording Replace"}
 
 
@@ -749,7 +749,7 @@ def oracle_c03(ctx, focus):
         if r.startswith("val\t") and not (o.startswith("OK:") or o.startswith("ERR:")):
             failures.append(fail(unesc(r.split("\t")[-1])[:200], o[:50], "Ok or Err", [r[:4000]], what="validate-result"))
     ctx.samples["c03"] = [{"request": reqs[5][:200], "answer": outs[5][:100]}]
-    return {"evaluations": n, "distinct_nontrivial": len(kinds) + len(set(outs)), "failures": failures[:40],
+    return {"evaluations": n, "distinct_nontrivial": len(kinds) + len(set(outs)), "failures": failures[:5000],
             "rule": "degenerate inputs (empty, whitespace, hyphens, apostrophes, combining marks, mixed scripts, 20k-word phrases, repeated vocabulary) x all entry points x thresholds incl. NaN/inf/-0/subnormal, concrete and facade"}
 
 
@@ -862,7 +862,7 @@ def oracle_c06(ctx, focus):
             for msg in check_occs(lang, occs, toks, lambda i: _is_skipped_text(toks[i])):
                 failures.append(fail(f[3][:300], msg, "well-formed, self-consistent occurrence", [r], lang=lang, what="occurrence"))
     ctx.samples["c06"] = [{"lang": meta[7][0], "text": meta[7][1], "answer": outs[7][:200]}]
-    return {"evaluations": n, "distinct_nontrivial": len(distinct), "failures": failures[:60],
+    return {"evaluations": n, "distinct_nontrivial": len(distinct), "failures": failures[:5000],
             "rule": "every occurrence reported on random sentences (all thresholds) and on the token streams of the correspondence step, re-read by an independent numeral reader; distinct = distinct occurrence texts"}
 
 
@@ -946,7 +946,7 @@ def oracle_c07(ctx, focus):
                     failures.append(fail(" ".join(ws), "word %r (#%d) validates to %s but lies in no occurrence" % (ws[j], j, unesc(o)),
                                          "every valid number word inside an occurrence at threshold 0", [r1, r], lang=lang, what="left-spelled"))
     ctx.samples["c07"] = [{"lang": "it", "stream": " ".join(streams_[3])}]
-    return {"evaluations": n, "distinct_nontrivial": len(distinct), "failures": failures[:60],
+    return {"evaluations": n, "distinct_nontrivial": len(distinct), "failures": failures[:5000],
             "rule": "random word streams over each language's full vocabulary (repeated scale words, conjunctions anywhere): scanner spans re-validated, valid phrases re-scanned, unconverted words re-validated"}
 
 
@@ -1037,7 +1037,7 @@ def oracle_c09(ctx, focus):
                     failures.append(fail(t, "threshold %s: kept %s" % (thv, [g[2] for g in got]), "kept %s (small & isolated numbers hidden, nothing else)" % [e[2] for e in exp],
                                          [rq(j), rq(base_i)], lang=lang, what="policy"))
         ctx.samples.setdefault("c09", []).append({"lang": lang, "text": texts[3]})
-    return {"evaluations": n, "distinct_nontrivial": len(distinct), "failures": failures[:60],
+    return {"evaluations": n, "distinct_nontrivial": len(distinct), "failures": failures[:5000],
             "rule": "sentences of small/large cardinals, ordinals, decimals, breakers, linking words, periods vs commas, at the threshold chain (-inf,-1,0,0.5,1,5,9,10,10.5,1e9,inf,NaN); policy recomputed from occ(0)"}
 
 
@@ -1108,7 +1108,7 @@ def oracle_c10(ctx, focus):
             if unesc(o) != want:
                 failures.append(fail(t, unesc(o), want, [r], lang=lang, what="punctuation"))
         ctx.samples.setdefault("c10", []).append({"lang": lang, "A": meta[0][0], "S": meta[0][1], "B": meta[0][2]})
-    return {"evaluations": n, "distinct_nontrivial": len(distinct), "failures": failures[:60],
+    return {"evaluations": n, "distinct_nontrivial": len(distinct), "failures": failures[:5000],
             "rule": "rewrite(A S B) = rewrite(A) S rewrite(B) for random A, B (held small numbers, neuf/o near the boundaries), S = 3-4 ordinary words + period, 5 thresholds; number-punctuation-number grid"}
 
 
@@ -1152,7 +1152,7 @@ def oracle_c11(ctx, focus):
                 failures.append(fail(r, "validate -> " + unesc(outs[4 * i + 3]), unesc(outs[4 * i + 2]), reqs[4 * i + 2:4 * i + 4], lang=lang, what="case-validate"))
             distinct.add((lang, t))
         ctx.samples.setdefault("c11", []).append({"lang": lang, "lower": meta[1][0], "recased": meta[1][1]})
-    return {"evaluations": n, "distinct_nontrivial": len(distinct), "failures": failures[:60],
+    return {"evaluations": n, "distinct_nontrivial": len(distinct), "failures": failures[:5000],
             "rule": "sentences (numbers, linking words, breakers) in lower / UPPER / Capitalised / Title / rAnDoM case with reversible case mapping, thresholds 0/5/10; occurrences and validation compared"}
 
 
@@ -1209,7 +1209,7 @@ def oracle_c13(ctx, focus):
         if a != want:
             failures.append(fail(code, a, want, [r], what="iso-lookup"))
     ctx.samples["c13"] = [{"request": "apply via en / L:en / G:en", "note": "every trait method and API function through the three paths"}]
-    return {"evaluations": n, "distinct_nontrivial": len(distinct), "failures": failures[:60],
+    return {"evaluations": n, "distinct_nontrivial": len(distinct), "failures": failures[:5000],
             "rule": "every trait method (apply, apply_decimal, get_morph_marker, is_decimal_sep, is_linking, format_and_value, format_decimal_and_value, basic_annotate) and API function through X::new(), Language::X and get_interpreter_for; lookup over all strings of length<=2 on [a-z] + case variants + junk"}
 
 
@@ -1283,7 +1283,7 @@ def oracle_c14(ctx, focus):
             if re.search(r"\bunsafe\b|static mut|RefCell|\bCell<|Mutex|RwLock|Atomic[A-Z]|thread_local!|lazy_static|OnceCell|OnceLock", st):
                 suspects.append("%s:%d: %s" % (os.path.relpath(p, t2nlib.REPO), ln, st[:100]))
     ctx.samples["c14"] = [{"threads": 16, "requests": len(lines), "rounds": rounds, "static_suspects": suspects[:10]}]
-    res = {"evaluations": n, "distinct_nontrivial": len(set(lines)), "failures": failures[:40], "static_suspects": suspects,
+    res = {"evaluations": n, "distinct_nontrivial": len(set(lines)), "failures": failures[:5000], "static_suspects": suspects,
            "rule": "one shared set of interpreters (and Language values), 16 threads x seeded random calls drawn from text/val/scan/apply streams of all 7 languages, each answer compared with a fresh interpreter's; fd1/fd2 of a child running the call mix must stay empty; Send+Sync asserted at compile time"}
     if suspects and not failures:
         res["tie_broken"] = "print/unsafe/interior-mutability site in non-test code: " + "; ".join(suspects[:3])
@@ -1399,7 +1399,7 @@ def oracle_c15(ctx, focus):
         if got != want:
             failures.append(fail(r.split("\t")[3][:300], "with a comma spoken instead of the hint: %s" % got, "same occurrences %s" % want, [r, cr], what="hint-is-comma"))
     ctx.samples["c15"] = [{"request": pool[0][0][len(pool[0][0]) // 2][:200], "answer": pool[0][1][len(pool[0][0]) // 2][:300]}] if pool else []
-    return {"evaluations": n, "distinct_nontrivial": len(distinct), "failures": failures[:60],
+    return {"evaluations": n, "distinct_nontrivial": len(distinct), "failures": failures[:5000],
             "rule": "every token stream of the correspondence step (scripted language: exhaustive short streams with nan/separation hints at every position; concrete languages: random): iterator trace vs batch, consumption counter vs spans, hints vs spans, comma-insertion metamorphic"}
 
 
@@ -1480,7 +1480,7 @@ def oracle_c17(ctx, focus):
                 failures.append(fail(w, unesc(outs[5 * i + 4]), "".join(out), [reqs[5 * i + 4]], lang=lang, what="whitespace-passthrough"))
             distinct.add((lang, t))
         ctx.samples.setdefault("c17", []).append({"lang": lang, "text": meta[2][0], "substituted": meta[2][1]})
-    return {"evaluations": n, "distinct_nontrivial": len(distinct), "failures": failures[:60],
+    return {"evaluations": n, "distinct_nontrivial": len(distinct), "failures": failures[:5000],
             "rule": "each whitespace run replaced by runs drawn from all 25 White_Space code points (+ leading/trailing additions); occurrences, validation and pass-through compared"}
 
 
@@ -1573,5 +1573,5 @@ def oracle_c18(ctx, focus):
             failures.append(fail(t, "occurrences %s" % [(o[0], o[1], o[2]) for o in a], "%s   (those of %r)" % ([(o[0], o[1], o[2]) for o in b], t2),
                                  reqs2[2 * i:2 * i + 2], lang="en", what="o-as-zero"))
     ctx.samples["c18"] = [{"text": meta2[5][0], "equivalent": meta2[5][1]}] if len(meta2) > 5 else []
-    return {"evaluations": n, "distinct_nontrivial": len(distinct), "failures": failures[:60],
+    return {"evaluations": n, "distinct_nontrivial": len(distinct), "failures": failures[:5000],
             "rule": "left/right neighbours of 'o' over number words of every class, ordinary words, punctuation, 'o', text boundaries x whitespace kinds x thresholds {0,1,10,inf,NaN}; compared with the sentence where 'o' is 'zero' resp. an ordinary word"}
